@@ -1,5 +1,6 @@
 import TrackVerif.LT.TextLemmas
 import TrackVerif.LT.Spec
+import TrackVerif.LT.CodecLemmas
 import TrackVerif.Generated.LT
 /-
   C13 — Encoded LapTimer files are well-formed XML in LapTimer's field syntax.
@@ -71,6 +72,27 @@ theorem int_text_plain (i : Int) : ∀ c ∈ (toString i).toList, c = '-' ∨ c.
     rcases List.mem_cons.mp hc with h | h
     · left; exact h
     · right; rw [Nat.toList_repr] at h; exact Nat.isDigit_of_mem_toDigits (by decide) (by decide) h
+
+/-! ### Field syntax, for every value -/
+
+/-- every non-negative duration (lap time, intermediate, relative offset) is written MM:SS.cc:
+    at least two minute digits (100+ minutes print three), seconds 00–59, two centisecond digits -/
+theorem duration_field_syntax (n : Nat) :
+    ∃ t, durationString Spec.schema (n : Int) = .ok t ∧ Spec.isDuration t = true := by
+  refine ⟨_, Spec.durationString_nonneg n, ?_⟩
+  exact Spec.duration_syntax _ _ _ (by omega) (by omega)
+
+/-- every lap date between 1969 and 2068 is written DD-MON-YY,HH:MM:SS with an upper-case month,
+    in UTC, whatever location the value carries (the model formats the instant) -/
+theorem lapdate_field_syntax (sec : Int) (ns : Nat) (h1 : -31536000 ≤ sec) (h2 : sec ≤ 3124223999) :
+    ∃ t, dateString Spec.schema "LapDate.String" sec ns = .ok t ∧ Spec.isLapDate t = true := by
+  obtain ⟨hv, _, _⟩ := Time.civilOf_valid sec ns h1 h2
+  have hy : ¬ (Time.civilOf sec ns).year < 0 := by have := hv.year_lo; omega
+  have hasc : ((Time.formatToks (Time.civilOf sec ns) Time.lapToks).all fun c => decide (c.toNat < 128)) = true :=
+    Time.format_lap_ascii _ hv
+  have lit : Spec.schema.lit "LapDate.String" 0 = some "02-Jan-06,15:04:05" := by decide +kernel
+  refine ⟨Time.toUpperAscii (Time.formatToks (Time.civilOf sec ns) Time.lapToks), ?_, Spec.lapdate_syntax _ hv⟩
+  simp only [dateString, lit, Option.bind_some, Time.format, Time.lap_layout, hy, if_false, hasc, if_true]
 
 /-- non-vacuity / regression witness: the text that exposed `&quote;` -/
 example : unescape (replaceAll (pairsOf Spec.schema.replacer) (goEscape ['a', '"', 'b'])) = some ['a', '"', 'b'] := by
